@@ -41,7 +41,8 @@ DEFECTS = [
     ("codegen-continue", "continue;", "syntax", "body"),
 ]
 
-SHIFTERS = ["/* one\n   two\n   three */", "// line comment", "", "\n", "#define ZED%d 12", "#if 0\nskipped 1\nskipped 2\n#endif", "#ifdef NOPE\nx\n#else\n#endif",
+SHIFTERS = ["#define LONG%d 1 + \\\n  2 + \\\n  3", "char \\\n  m%d \\\n  ;", "#define QUAD%d(a) (a + \\\n 1 + \\\n 2 + \\\n 3)",
+            "/* one\n   two\n   three */", "// line comment", "", "\n", "#define ZED%d 12", "#if 0\nskipped 1\nskipped 2\n#endif", "#ifdef NOPE\nx\n#else\n#endif",
             "/* a */ /* b\n c */", "char \\\n  w%d;", "/* spliced \\\n comment */", "char u%d; // tail", "#define F%d(a) (a+1)", "#ifndef NOPE\n#endif"]
 
 
